@@ -162,6 +162,10 @@ def valid_history(rng, kind, ncalls=30, small=False, allow=("ratio", "ramp", "ch
                     p["out_extra"] = rng.choice([1, 2, 3, 4, 64, 1000])
                 if rng.random() < 0.15:
                     p["out_fill"] = "garbage"      # a reused output buffer that still holds old frames
+                if n["ch"] > 1 and rng.random() < 0.15:
+                    # channels of different lengths, each at least as long as required
+                    p["in_extra_pc"] = [rng.choice([0, 0, 1, 5, 100, 1000]) for _ in range(n["ch"])]
+                    p["out_extra_pc"] = [rng.choice([0, 0, 1, 5, 100, 1000]) for _ in range(n["ch"])]
             if mask == "vary":
                 p["mask"] = [rng.random() < 0.6 for _ in range(n["ch"])]
                 if not any(p["mask"]) and p.get("via") in ("alloc", "vec_alloc"):
